@@ -255,6 +255,20 @@ func init() {
 				nsMode, tMode, cNs, cT = c03Modes[i%4], c03Modes[(i/4)%4], c03Modes[(i/16)%4], c03Modes[(i/64)%4]
 			}
 			b := c03Program(path, nsMode, tMode, cNs, cT, ch)
+			fa, fb := b.Files[0], b.Files[1]
+			if i%3 == 1 {
+				// other files of the same two namespaces, declared with other autoescape modes and added first and last:
+				// each file's declaration governs only its own templates
+				m1, m2 := c03Modes[r.Intn(4)], c03Modes[r.Intn(4)]
+				fz := &ref.File{Name: "z0.soy", Namespace: "na", Autoescape: m1, Templates: []*ref.Template{{Name: "other1", Body: []ref.Node{&ref.Raw{Text: "o"}}}}}
+				fy := &ref.File{Name: "z1.soy", Namespace: "nb", Autoescape: m2, Templates: []*ref.Template{{Name: "other2", Body: []ref.Node{&ref.Raw{Text: "o"}}}}}
+				if r.Bool() {
+					b.Files = append([]*ref.File{fz, fy}, b.Files...)
+				} else {
+					b.Files = append([]*ref.File{fy}, append(b.Files, fz)...)
+				}
+				ctx.Cell("shared-namespaces")
+			}
 			files := bundleSources(b, ref.Layout{})
 			d := map[string]ref.Value{"v": val}
 			prog := &gen.Program{B: b, Entry: "na.main", Data: d}
@@ -328,9 +342,9 @@ func init() {
 				return fw.Result{Verdict: fw.Held}
 			}
 			// which template prints the value, and is it an escaping context?
-			printerOn := ref.EffectiveAutoescape(b.Files[0], b.Files[0].Templates[0])
+			printerOn := ref.EffectiveAutoescape(fa, fa.Templates[0])
 			if path == "param-value" || path == "data-all" || path == "nested-content" {
-				printerOn = ref.EffectiveAutoescape(b.Files[1], b.Files[1].Templates[0])
+				printerOn = ref.EffectiveAutoescape(fb, fb.Templates[0])
 			}
 			escapingCtx := printerOn && !chainCancels(ch)
 			hasEscaper := false
@@ -354,9 +368,9 @@ func init() {
 			if escapingCtx || (hasEscaper && !chainCancelsAfterEscaper(ch)) {
 				if path == "let-content" || path == "param-content" {
 					// the outer print decides: it is in main (let-content) or in the callee (param-content)
-					outerOn := ref.EffectiveAutoescape(b.Files[0], b.Files[0].Templates[0])
+					outerOn := ref.EffectiveAutoescape(fa, fa.Templates[0])
 					if path == "param-content" {
-						outerOn = ref.EffectiveAutoescape(b.Files[1], b.Files[1].Templates[0])
+						outerOn = ref.EffectiveAutoescape(fb, fb.Templates[0])
 					}
 					if !outerOn && !escapingCtx && !hasEscaper {
 						return fw.Result{Verdict: fw.Held}
